@@ -132,6 +132,12 @@ class _MetaPyTree(type):
             if not was_flattening:
                 clear_treeflatten_memo()
         if cls.structure is not None:
+            # The leaf test has just been run at every node of `obj`. If it failed
+            # somewhere (e.g. a nested `PyTree[...]` inside a `Union[...]`, at a node that
+            # is not a leaf) then that check rolled back by swapping fresh dictionaries
+            # into the current context, and the `pytree_memo` we were handed is no longer
+            # the one that is looked at afterwards: bind and compare in the current one.
+            _, _, pytree_memo, _ = get_shape_memo()
             if cls.structure.isidentifier():
                 try:
                     prev_structure = pytree_memo[cls.structure]
